@@ -835,6 +835,15 @@ func (ex *executor) callStep(idx int, st *Step) {
 					anyFailing = anyFailing || p.Status != 200
 				}
 			}
+			if c.Fn == "SyncCollection" && res.Err != nil && len(failedRes) > 0 && !anyFailing && (last.Faulted == "" || last.Faulted == "ms-response-status") {
+				only404 := true
+				for _, code := range failedRes {
+					only404 = only404 && code == 404
+				}
+				if only404 {
+					bad("failed-resource-as-data", fmt.Sprintf("sync-collection: the only failing members are reported 404 (= deleted), yet the whole call failed: %v", res.Err))
+				}
+			}
 			if len(failedRes)+len(failedProp) > 0 || anyFailing {
 				// the server itself reports a member, a property or everything as
 				// missing/failed: an error is a correct outcome
